@@ -47,10 +47,13 @@ def hash_node(
         elif isinstance(child, (ast.FunctionDef, ast.AsyncFunctionDef)):
             names = [child.name]
         else:
+            # Values are compared by type and repr rather than by their own hash: 1, 1.0 and True
+            # hash alike, as do 1 and 1 + 2 ** 61 - 1, and constants that are neither str nor
+            # int (0.5, None, b"x") must tell nodes apart as well.
             things_to_hash.extend(
-                (key, value)
+                (key, type(value).__name__, repr(value))
                 for key, value in child.__dict__.items()
-                if isinstance(value, (str, int))
+                if not isinstance(value, (ast.AST, list))
                 if key not in {"lineno", "end_lineno", "col_offset", "end_col_offset"}
             )
         for name in names:
